@@ -321,6 +321,7 @@ func newPeer(c *mon.Case, mproto, tr string, macatBinds bool) *peer {
 		must(pe.sock.SetOption(mangos.OptionSubscribe, []byte{}))
 	}
 	_ = pe.sock.SetOption(mangos.OptionSendDeadline, wdog)
+	must(pe.sock.SetOption(mangos.OptionMaxRecvSize, 0)) // payloads over the 1 MiB default must reach the harness
 	if !macatBinds {
 		la := hx.ListenAddr(tr)
 		if tr == "tcp" {
